@@ -4,5 +4,5 @@ INVARIANT Emit
 CHECK_DEADLOCK FALSE
 CONSTANTS
   MaxLen = 3
-  UseTok = TRUE
+  Mode = "tok"
   Alphabet = {32, 13, 10, 91, 93, 123, 125, 44, 58, 34, 92, 47, 42, 48, 49, 45, 46, 101, 117, 116, 114, 110, 108, 195, 169}
